@@ -18,7 +18,7 @@
 namespace {
 
 struct Stats {
-  unsigned long total = 0, ok = 0, err = 0, past_options = 0, vec_offered = 0, suf_offered = 0, binary = 0, by_code[16] = {0};
+  unsigned long total = 0, ok = 0, err = 0, past_options = 0, vec_offered = 0, suf_offered = 0, binary = 0, suf_len_checked = 0, by_code[16] = {0};
 } g_stats;
 
 void dump_stats() {
@@ -26,8 +26,8 @@ void dump_stats() {
   if (!p) return;
   FILE* f = fopen(p, "a");
   if (!f) return;
-  fprintf(f, "{\"total\":%lu,\"ok\":%lu,\"err\":%lu,\"past_options\":%lu,\"vec_offered\":%lu,\"suf_offered\":%lu,\"binary\":%lu,\"codes\":[",
-          g_stats.total, g_stats.ok, g_stats.err, g_stats.past_options, g_stats.vec_offered, g_stats.suf_offered, g_stats.binary);
+  fprintf(f, "{\"total\":%lu,\"ok\":%lu,\"err\":%lu,\"past_options\":%lu,\"vec_offered\":%lu,\"suf_offered\":%lu,\"binary\":%lu,\"suf_len_checked\":%lu,\"codes\":[",
+          g_stats.total, g_stats.ok, g_stats.err, g_stats.past_options, g_stats.vec_offered, g_stats.suf_offered, g_stats.binary, g_stats.suf_len_checked);
   for (int i = 0; i < 10; ++i) fprintf(f, "%s%lu", i ? "," : "", g_stats.by_code[i]);
   fprintf(f, "]}\n");
   fclose(f);
@@ -45,6 +45,7 @@ struct H {
   int partial_failures = 0;     // vectors whose reading failed midway
   int unfinished_by_choice = 0; // vectors the handler left unread although no error occurred
   int offered = 0, suf = 0;
+  std::vector<std::pair<size_t, size_t>> suf_lens;       // delivered (name length, table length), in order
   mp::NLHeader Header() const { mp::NLHeader h = mp::NLHeader(); h.num_vars = nv; h.num_algebraic_cons = nc; return h; }
   void OnSolveMessage(const char* s, int nbs) { if (!s) fail("null solve message"); if (nbs < 0) fail("negative backspace count"); (void)strlen(s); }
   struct AMPLOptions { std::vector<long> options_; bool has_vbtol_; double vbtol_; };
@@ -68,12 +69,32 @@ struct H {
     ++suf;
     const auto& si = sr.SufInfo();
     if (si.Kind() < 0 || si.Kind() > 15) fail("suffix kind outside 0..15", si.Kind());
-    volatile size_t l = si.Name().size() + si.Table().size(); (void)l;
+    suf_lens.push_back({si.Name().size(), si.Table().size()});
     consume(sr, (mode >> 4) & 3, -1, "");
   }
   template <class R> void OnIntSuffix(R& sr) { suffix(sr); }
   template <class R> void OnDblSuffix(R& sr) { suffix(sr); }
 };
+
+// Independent scan of a *text* .sol file for the suffix headers after the objno line: "suffix <kind> <n> <namelen> <tablen> <tablines>".
+// Returns false if the text does not have the plain shape (then nothing is compared).
+bool scan_text_suffix_headers(const std::string& t, std::vector<std::pair<long, long>>& out) {
+  size_t pos = 0; bool after_objno = false;
+  while (pos < t.size()) {
+    size_t e = t.find('\n', pos); if (e == std::string::npos) e = t.size();
+    std::string line = t.substr(pos, e - pos); pos = e + 1;
+    if (!after_objno) { if (line.compare(0, 6, "objno ") == 0) after_objno = true; continue; }
+    if (line.compare(0, 7, "suffix ") != 0) return false;
+    long kind, n, namelen, tablen, tablines; int used = 0;
+    if (sscanf(line.c_str() + 7, "%ld %ld %ld %ld %ld%n", &kind, &n, &namelen, &tablen, &tablines, &used) != 5) return false;
+    for (const char* c = line.c_str() + 7 + used; *c; ++c) if (*c != ' ' && *c != '\r') return false;
+    if (n < 0 || namelen < 2 || tablen < 0 || tablines < 0 || n > 100000 || tablines > 100000) return false;
+    out.push_back({namelen, tablen});
+    long skip = 1 + (tablen ? tablines : 0) + n;          // name line, table lines, value lines
+    for (long k = 0; k < skip; ++k) { if (pos > t.size()) return false; size_t e2 = t.find('\n', pos); if (e2 == std::string::npos) { if (k + 1 < skip) return false; e2 = t.size(); } pos = e2 + 1; }
+  }
+  return after_objno;
+}
 
 int pick(uint8_t b, int file_guess) {
   switch (b % 6) { case 0: return 0; case 1: return 1; case 2: return 3; case 3: return 7; case 4: return 100000; default: return file_guess; }
@@ -114,6 +135,16 @@ extern "C" int LLVMFuzzerTestOneInput(const uint8_t* data, size_t size) {
     ++g_stats.ok;
     if (h.partial_failures) fail("a vector read failed midway but the overall result is OK", h.partial_failures);
     if (h.unfinished_by_choice) fail("a vector was left unread but the overall result is OK", h.unfinished_by_choice);
+    // suffix names and tables are delivered with the lengths stated in the file (text files of the plain shape)
+    bool is_binary = size > 13 && !memcmp(data + 7, "binary", 6);
+    std::vector<std::pair<long, long>> stated;
+    if (!is_binary && !h.suf_lens.empty() && scan_text_suffix_headers(std::string((const char*)data + 3, size - 3), stated) && stated.size() == h.suf_lens.size()) {
+      ++g_stats.suf_len_checked;
+      for (size_t i = 0; i < stated.size(); ++i) {
+        if ((long)h.suf_lens[i].first > stated[i].first - 1) fail("suffix name delivered longer than the length stated in the file", (long)h.suf_lens[i].first, stated[i].first);
+        if ((long)h.suf_lens[i].second > (stated[i].second > 0 ? stated[i].second - 1 : 0)) fail("suffix table delivered longer than the length stated in the file", (long)h.suf_lens[i].second, stated[i].second);
+      }
+    }
   } else {
     ++g_stats.err;
     if (msg.empty()) fail("error code without a message", rc);
